@@ -14,7 +14,7 @@ Extraction "model.ml"
   parse_bmsg parse_stream enc_bmsg enc_stream wf_msg
   err_text get_code get_severity default_severity err_fields any_text flatten
   e_unimplemented oracle_C17 model_errorcode spec_fields
-  decode_all eff_limit wrun xrun x_init frames serve encode_value oracle_C09 decode_value dval_of_value oracle_names names_verdict oracle_C13 oracle_C13_turns oracle_C13_strict oracle_early_end oracle_early_scan oracle_parse_budget query_of oracle_data_budget oracle_C19 oracle_turns oracle_C05 oracle_C01 oracle_C12 oracle_C10 startup_served turn_verdict
+  decode_all eff_limit wrun xrun x_init frames serve encode_value oracle_C09 decode_value dval_of_value oracle_names names_verdict oracle_C13 oracle_C13_turns oracle_C13_strict oracle_early_end oracle_early_scan oracle_parse_budget query_of oracle_data_budget plain_frame syncs readies oracle_C19 oracle_turns oracle_C05 oracle_C01 oracle_C12 oracle_C10 startup_served turn_verdict
   run_case log_digest log_match strip_consume.
 
 (* the shutdown protocol model: a separate OCaml module *)
